@@ -58,6 +58,16 @@ func genTxnC(r *sim.Rand, tier, prop string) *sim.Case {
 		if c.Cfg["pause_odds"] == 0 {
 			c.Cfg["pause_odds"] = 6
 		}
+		// half of them with one long preemption of task 0 (it runs first, is held at
+		// the chosen point while the others run to completion, then finishes): right
+		// after it got its snapshot, or at its n-th scheduling point whatever it is
+		if r.Intn(2) == 0 {
+			c.Cfg["hold_site"] = r.Pick64(1, 2, 2)
+			c.Cfg["hold_nth"] = 1
+			if c.Cfg["hold_site"] == 2 {
+				c.Cfg["hold_nth"] = int64(1 + r.Intn(70))
+			}
+		}
 		k0 := r.Intn(nkeys)
 		c.Ops = append(c.Ops, sim.Op{K: "txn", A: 0, B: 1, S: fmt.Sprintf("g:%d,s:%d:%d", k0, k0, r.Intn(40))})
 		for t := 1; t < ntasks; t++ {
